@@ -1,9 +1,10 @@
 SPECIFICATION Spec
+CONSTANT Flavours = {"reactor"}
 CONSTANT MaxCalls = 3
-CONSTANT Ds = {0, 1, 2}
+CONSTANT Ds = {0, 1}
 CONSTANT NegMax = 1
-CONSTANT MaxNow = 3
-CONSTANT Depth = 11
+CONSTANT MaxNow = 2
+CONSTANT Depth = 8
 CONSTRAINT Bound
 VIEW View
 INVARIANT ExactlyOnce
